@@ -62,7 +62,7 @@ def make_program(K, profile):
 
 def inject_data_fault(prog, rng):
     """Replace one expression of the definition, at a seeded position, by one that fails on the
-    data delivered (C11 a).  Records the position in prog['_fault']."""
+    data delivered (C11 a).  Records the position in prog["fault_info"]."""
     kind = rng.choice(lang.FAULT_KINDS)
     node = ["faulty", kind]
     pos = []
@@ -122,7 +122,7 @@ def inject_data_fault(prog, rng):
             t["next"][where[2]]["when"] = node
         elif w == "publish":
             t["next"][where[2]]["publish"].append(["v0", node])
-    prog["_fault"] = {"pos": w, "task": where[1] if len(where) > 1 else None,
+    prog["fault_info"] = {"pos": w, "task": where[1] if len(where) > 1 else None,
                       "tr": where[2] if len(where) > 2 else None, "kind": kind}
     return True
 
